@@ -22,7 +22,7 @@ theorem Var.mem_all (v : Var) : v ∈ Var.all := by
 structure WF (T : Table) (sig : Var → Bool) : Prop where
   own : ∀ v w, w ∈ (T.unitOf v).writes → T.unitOf w.var = T.unitOf v
   rank : ∀ v w, w ∈ (T.unitOf v).writes → T.rk w.var = T.rk v
-  plain : ∀ v w, w ∈ (T.unitOf v).writes → w.force = false ∧ w.leak = false ∧ w.ranged = true
+  plain : ∀ v w, w ∈ (T.unitOf v).writes → w.force = false ∧ w.leak = false ∧ w.ranged = true ∧ w.drops = []
   side : ∀ v w, w ∈ (T.unitOf v).writes → w.withSide = T.sided w.var
   guards : ∀ v w, w ∈ (T.unitOf v).writes → ∀ c ∈ w.guard, condOwn T v c = true
   args : ∀ v w, w ∈ (T.unitOf v).writes → ∀ a ∈ w.args, argOK T v w a = true
@@ -35,17 +35,17 @@ theorem wf_of_wfB {T : Table} {sig : Var → Bool} (h : wfB T sig = true) : WF T
     exact (List.all_eq_true.mp h) v (Var.mem_all v)
   have hw : ∀ v w, w ∈ (T.unitOf v).writes →
       (T.unitOf w.var == T.unitOf v && T.rk w.var == T.rk v && !w.force && !w.leak && w.ranged
-        && w.withSide == T.sided w.var && w.guard.all (condOwn T v) && w.args.all (argOK T v w)) = true := by
+        && w.drops.isEmpty && w.withSide == T.sided w.var && w.guard.all (condOwn T v) && w.args.all (argOK T v w)) = true := by
     intro v w hmem
     have := hv v
     simp only [wfVar, Bool.and_eq_true] at this
     exact (List.all_eq_true.mp this.1) w hmem
   refine ⟨?_, ?_, ?_, ?_, ?_, ?_, ?_, ?_⟩
-  · intro v w hm; have := hw v w hm; simp only [Bool.and_eq_true, beq_iff_eq] at this; exact this.1.1.1.1.1.1.1
-  · intro v w hm; have := hw v w hm; simp only [Bool.and_eq_true, beq_iff_eq] at this; exact this.1.1.1.1.1.1.2
+  · intro v w hm; have := hw v w hm; simp only [Bool.and_eq_true, beq_iff_eq] at this; exact this.1.1.1.1.1.1.1.1
+  · intro v w hm; have := hw v w hm; simp only [Bool.and_eq_true, beq_iff_eq] at this; exact this.1.1.1.1.1.1.1.2
   · intro v w hm; have := hw v w hm
-    simp only [Bool.and_eq_true, beq_iff_eq, Bool.not_eq_true'] at this
-    exact ⟨this.1.1.1.1.1.2, this.1.1.1.1.2, this.1.1.1.2⟩
+    simp only [Bool.and_eq_true, beq_iff_eq, Bool.not_eq_true', List.isEmpty_iff] at this
+    exact ⟨this.1.1.1.1.1.1.2, this.1.1.1.1.1.2, this.1.1.1.1.2, this.1.1.1.2⟩
   · intro v w hm; have := hw v w hm; simp only [Bool.and_eq_true, beq_iff_eq] at this; exact this.1.1.2
   · intro v w hm c hc; have := hw v w hm; simp only [Bool.and_eq_true] at this
     exact (List.all_eq_true.mp this.1.2) c hc
@@ -206,14 +206,17 @@ theorem doWrite_globals {st0 : Store} {σ : St} {w : Write} (hl : w.leak = false
   unfold doWrite
   split <;> simp [hl]
 
-theorem doWrite_other {st0 : Store} {σ : St} {w : Write} {x : Var} (hx : x ≠ w.var) :
-    (doWrite st0 σ w).1 x = σ.1 x := by
+theorem erase_nil (st : Store) : st.erase [] = st := by
+  funext x; simp [Store.erase]
+
+theorem doWrite_other {st0 : Store} {σ : St} {w : Write} {x : Var} (hx : x ≠ w.var)
+    (hd : w.drops = []) : (doWrite st0 σ w).1 x = σ.1 x := by
   unfold doWrite
   split
-  · simp [Store.set, hx]
+  · simp [Store.set, hx, hd, erase_nil]
   · rfl
 
-theorem doWrite_le {st0 : Store} {σ : St} {w : Write} (hf : w.force = false) :
+theorem doWrite_le {st0 : Store} {σ : St} {w : Write} (hf : w.force = false) (hd : w.drops = []) :
     Le σ.1 (doWrite st0 σ w).1 := by
   intro v e hv
   unfold doWrite
@@ -222,7 +225,7 @@ theorem doWrite_le {st0 : Store} {σ : St} {w : Write} (hf : w.force = false) :
     simp only [hf, Bool.false_or, Bool.and_eq_true] at hc
     have : v ≠ w.var := by
       intro heq; subst heq; simp [hv] at hc
-    simp [Store.set, this, hv]
+    simp [Store.set, this, hv, hd, erase_nil]
   · exact hv
 
 theorem doWrite_globals_fold {st0 : Store} (ws : List Write) (hl : ∀ w ∈ ws, w.leak = false) :
@@ -431,7 +434,7 @@ theorem write_step (wf : WF T sig) {v : Var} (hs : sig v = false) {σr : St}
   have hw : w ∈ (T.unitOf v).writes := by rw [hsplit]; simp
   have hpl := wf.plain v w hw
   have hgs := guards_static wf hs hinv hv hreads hw
-  have hle' : Le σp.1 (doWrite σr.1 σp w).1 := doWrite_le hpl.1
+  have hle' : Le σp.1 (doWrite σr.1 σp w).1 := doWrite_le hpl.1 hpl.2.2.2
   by_cases hc : (w.guard.all (evalCond σr.1) && (w.force || (σp.1 w.var).isNone)) = true
   · -- the write happens
     have hg : w.guard.all (staticCond T sig) = true := by
@@ -470,7 +473,7 @@ theorem write_step (wf : WF T sig) {v : Var} (hs : sig v = false) {σr : St}
                           side := if w.withSide then some (mkApp w.fn (w.args.map (argVal σp.1))) else none,
                           ranged := w.ranged, chunked := false },
          if w.leak then { σp.2 with edgeSide := some (mkApp w.fn (w.args.map (argVal σp.1))) } else σp.2) := by
-      unfold doWrite; rw [if_pos hc]
+      unfold doWrite; rw [if_pos hc]; simp only [hpl.2.2.2, erase_nil]
     refine ⟨?_, ?_, Le.trans P.le hle', ?_, ?_, ?_⟩
     · intro y hy; exact Le.isSome hle' (P.srcp y hy)
     · intro y e he
@@ -479,9 +482,9 @@ theorem write_step (wf : WF T sig) {v : Var} (hs : sig v = false) {σr : St}
         rw [hdw] at he
         simp only [Store.set, ↓reduceIte, Option.some.injEq] at he
         subst he
-        refine ⟨hval, hpl.2.2, ?_⟩
+        refine ⟨hval, hpl.2.2.1, ?_⟩
         simp only [sideExp, hsx, Bool.not_false, Bool.true_and, wf.side v w hw, hval]
-      · rw [doWrite_other hyx] at he
+      · rw [doWrite_other hyx hpl.2.2.2] at he
         exact P.sound y e he
     · rw [doWrite_globals hpl.2.1]; exact P.gl
     · intro w' hw' hg'
@@ -492,7 +495,7 @@ theorem write_step (wf : WF T sig) {v : Var} (hs : sig v = false) {σr : St}
         rw [hdw]; simp [Store.set]
     · intro x hx
       have hxw : x ≠ w.var := fun h => hx w (by simp) h.symm
-      rw [doWrite_other hxw]
+      rw [doWrite_other hxw hpl.2.2.2]
       exact P.only x (fun w' hw' => hx w' (List.mem_append_left _ hw'))
   · -- nothing is stored
     have hdw : doWrite σr.1 σp w = σp := by unfold doWrite; rw [if_neg hc]
